@@ -3,6 +3,7 @@ import Spine.FeatureMore
 import Spine.LocalTreeThm
 import Spine.LocalTreeMore
 import Spine.LocalTreeSpec
+import Spine.LocalTreeNote
 /-!
 # C07 — the local device tree is announced faithfully and addressed uniquely
 
@@ -360,6 +361,57 @@ def exNotif : List Op :=
 example : recvNotes 0 (init {}) exNotif =
       [.notify 0 true 1 1 [⟨1, 0, 1, 2, []⟩], .notify 0 false 1 1 [], .notify 0 false 2 2 []] ∧
     expCount 0 false exNotif = 3 ∧ recvNotes 1 (init {}) exNotif = [] := by decide
+
+/-- Clause 2, the CONTENT of the notifications against the SPEC (second wave; before: an argument in the doc comment of
+    `c07_notifications_history`). Over ANY history, the partial notifications peer p received, read as maps (`noteDecl`:
+    added / removed, slot, entity type, feature number ↦ type, role, description, operations per function), are exactly
+    `specNotes`: the list computed from the SPEC maps alone — `specStep` folded over the calls and the numbers they
+    returned, subscribed = between p's subscription and unsubscription call — one entry per AddEntity performed while p
+    was subscribed, carrying the DECLARED entity type and the DECLARED features of that slot at that moment, and one
+    per RemoveEntity, carrying no feature. The reading loses nothing: the number of entries is the number of
+    notifications received, every notification is addressed to p, its feature numbers are pairwise distinct and each
+    of its features names every function once. -/
+theorem c07_notification_content (cfg : DevCfg) (ops : List Op) (p : Nat) :
+    (recvNotes p (init cfg) ops).filterMap noteDecl = specNotes p (init cfg) (LTree.abs (init cfg)) false ops ∧
+    ((recvNotes p (init cfg) ops).filterMap noteDecl).length = (recvNotes p (init cfg) ops).length ∧
+    ∀ q a k et fs, Obs.notify q a k et fs ∈ recvNotes p (init cfg) ops →
+      q = p ∧ (fs.map (·.id)).Nodup ∧ ∀ f ∈ fs, (f.fns.map (·.fn)).Nodup := by
+  have h := recv_eq_exp p ops (init cfg) (inv_init cfg)
+  have h0 : decide (p ∈ (init cfg).subs) = false := by simp [init]
+  rw [h0] at h
+  have hc := exp_eq_spec p ops (init cfg) false (inv_init cfg)
+  refine ⟨by rw [h]; exact hc, ?_, ?_⟩
+  · rw [h, hc, specNotes_length, expNotes_length]
+  · intro q a k et fs hm
+    rw [h] at hm
+    exact exp_wellformed p ops (init cfg) false (inv_init cfg) q a k et fs hm
+
+/-- … and per step, at any point of any history: AddEntity of slot k while p is subscribed sends p exactly one
+    notification; it announces the entity type the application declared for the object in that slot and a feature list
+    that, read as a map from feature numbers, IS the SPEC's feature map of that slot at that moment (`specOf` of the
+    prefix); RemoveEntity announces the declared entity type and no feature. -/
+theorem c07_entity_notification_content (cfg : DevCfg) (pre : List Op) (k p : Nat) (hp : p ∈ (run cfg pre).subs) :
+    (∃ fs, (step (run cfg pre) (.attach k)).2.filter (discTo p) = [.notify p true k ((specOf cfg pre).etype k) fs] ∧
+      featsMap fs = (specOf cfg pre).feat k ∧ (fs.map (·.id)).Nodup) ∧
+    (step (run cfg pre) (.detach k)).2.filter (discTo p) = [.notify p false k ((specOf cfg pre).etype k) []] := by
+  have hi := inv_run cfg pre
+  refine ⟨⟨((run cfg pre).pool k).feats, ?_, ?_, ((hi.1 k).1.1)⟩, ?_⟩
+  · rw [c07_entity_added_notification _ hi k p, if_pos hp, ← abs_run cfg pre]; rfl
+  · rw [← abs_run cfg pre]; rfl
+  · rw [c07_entity_removed_notification _ hi k p, if_pos hp, ← abs_run cfg pre]; rfl
+
+/-- non-vacuity: the notifications of `exNotif` for peer 0 as maps — entity 1 added with feature 1 = LoadControl(0) /
+    server / "LoadControl Server" without functions and no feature 2, removed, entity 2 removed; and a history in which
+    a function is added, re-added with other flags and a description set before the entity is added -/
+example : ((recvNotes 0 (init {}) exNotif).filterMap noteDecl).map
+      (fun n => (n.added, n.slot, n.etype, (n.feat 1).map fun d => (d.typ, d.role, d.descr, d.ops 0), (n.feat 2).isSome)) =
+    [(true, 1, 1, some (0, 1, 2, none), false), (false, 1, 1, none, false), (false, 2, 2, none, false)] := by rfl
+example : ((specNotes 0 (init {}) (LTree.abs (init {})) false
+      [.sub 0, .renew 1 3, .feat 1 0 1, .addFn 1 1 0 true true true, .addFn 1 1 0 false false false, .setDescr 1 1 77,
+       .feat 1 2 0, .attach 1]).map
+      (fun n => (n.added, n.slot, n.etype, (n.feat 1).map fun d => (d.typ, d.role, d.descr, d.ops 0),
+        (n.feat 2).map fun d => (d.typ, d.role), (n.feat 3).isSome))) =
+    [(true, 1, 3, some (0, 1, 77, some (true, true, true)), some (2, 0), false)] := by rfl
 
 /-- Clause 2 under FAILING peers (`notify_independent_of_other_failures`): when the connections of some peers cannot
     be written to (their sends return an error), what every healthy peer receives from any step — partial
